@@ -308,8 +308,12 @@ def cue_text(rng, wellformed=True):
             tl.append(f'{base * 588}.{n}.{hx(isrc.replace("-", "").encode()) if isrc else "-"}.0.{int(pre)}.' + '+'.join(f'{(p - base) * 588}/{num}' for num, p in idx))
         expected = f'Q:1:{catalog or "-"}:88200:{",".join(tl)}:{total}.-.0.0'
     else:
-        m = rng.choice(['swap', 'dropindex', 'badnum', 'hugemin', 'backwards', 'dupcat', 'lateflags', 'isrcbad', 'short', 'noncdda', 'index255', 'garbage', 'secs', 'trackgap', 'nolines'])
-        if m == 'swap' and len(lines) > 2:
+        m = rng.choice(['quotes', 'swap', 'dropindex', 'badnum', 'hugemin', 'backwards', 'dupcat', 'lateflags', 'isrcbad', 'short', 'noncdda', 'index255', 'garbage', 'secs', 'trackgap', 'nolines'])
+        if m == 'quotes':
+            # quoting corner cases of CATALOG / ISRC values: lone quote, empty quotes, unbalanced, doubled
+            q = rng.choice(['"', '""', '"""', '"1234567890123', '1234567890123"', '" "', "'1234567890123'", '"AA6Q72000047""'])
+            lines.insert(rng.randrange(len(lines) + 1), rng.choice(['CATALOG ', 'ISRC ']) + q)
+        elif m == 'swap' and len(lines) > 2:
             i = rng.randrange(len(lines) - 1); lines[i], lines[i + 1] = lines[i + 1], lines[i]
         elif m == 'dropindex':
             lines = [l for l in lines if not (l.startswith('INDEX') and rng.random() < 0.5)]
